@@ -489,8 +489,17 @@ func (g *gen) immSite(sc *scope, td *TypeDecl, o *Var) *Site {
 		s.Kind = "imm.assign"
 	case k < 30:
 		s.Kind = "imm.assignparen"
+	case k < 34:
+		s.Kind = "imm.tuple"
 	case k < 38:
 		s.Kind = "imm.tuple"
+		for _, f2 := range basics {
+			if f2 != f {
+				s.Kind = "imm.tuple2"
+				s.Field2 = f2
+				break
+			}
+		}
 	case k < 52 && f.Basic == "int":
 		s.Kind = "imm.compound"
 		s.Aux = []string{"+=", "-=", "*=", "|=", "<<="}[g.pick("op", 5)]
@@ -549,6 +558,16 @@ func (g *gen) genBody(sc *scope, pkg *Pkg, own []*TypeDecl, earlier []*Pkg, dept
 		s := g.genSite(sc, pkg, own, earlier)
 		if s == nil {
 			continue
+		}
+		// two simple sites on one source line (gofmt would split them)
+		if a, ok := s.(*Site); ok && g.oneLinerOK(a) && g.chance("oneLiner", 12) {
+			if s2 := g.genSite(sc, pkg, own, earlier); s2 != nil {
+				if b, ok := s2.(*Site); ok && g.oneLinerOK(b) {
+					body = append(body, g.maybeWrap(sc, &OneLiner{Sites: []*Site{a, b}}, depth))
+					continue
+				}
+				body = append(body, g.maybeWrap(sc, s2, depth))
+			}
 		}
 		body = append(body, g.maybeWrap(sc, s, depth))
 	}
@@ -923,4 +942,17 @@ func (g *gen) genIndirect(pkg *Pkg, earlier []*Pkg, n int) []Decl {
 		out = append(out, u)
 	}
 	return out
+}
+
+// oneLinerOK: sites that render as a single statement without filler lines.
+func (g *gen) oneLinerOK(s *Site) bool {
+	if s.Form != "" {
+		return false
+	}
+	switch s.Kind {
+	case "imm.assign", "imm.assignparen", "imm.tuple", "imm.tuple2", "imm.compound", "imm.incdec", "imm.index", "imm.nested", "imm.recvassign", "imm.recvincdec",
+		"lit", "litptr", "elided.slice", "new", "call", "mcall", "read.field":
+		return true
+	}
+	return false
 }
